@@ -546,12 +546,25 @@ class Engine:
         m=re.search(r'static\(DefId\([^~]*~ [^:]*::(?:[A-Za-z_0-9]+::)*([A-Za-z_0-9]+)\)\)',s)
         if m:
             cands=self.const_index.get(m.group(1),[])
-            if len(cands)>=1: return Ref(Cell(self.eval_const(run,cands[0])))
+            if len(cands)>=1:
+                # one cell per static per run: a static lives as long as the process, i.e. across the calls a harness makes in one run
+                st=run.ghost.setdefault('statics',{})
+                if m.group(1) not in st:
+                    v=self.eval_const(run,cands[0])
+                    if isinstance(v,Opaque): v=Opaque(v.kind,None if isinstance(v.p,dict) else v.p)     # never share mutable state between runs
+                    else:
+                        from .models import clone_val
+                        v=clone_val(v)
+                    st[m.group(1)]=Ref(Cell(v))
+                return st[m.group(1)]
         m=re.match(r'^\{(alloc\d+): &',s)
         if m:
             from . import parse as _p
             st=_p.ALLOC_STATICS.get(m.group(1))
-            if st: return Ref(Cell(Opaque('static:'+st.split('::')[-1])))
+            if st:
+                nm=st.split('::')[-1]; stt=run.ghost.setdefault('statics',{})
+                if 'alloc:'+nm not in stt: stt['alloc:'+nm]=Ref(Cell(Opaque('static:'+nm)))       # one cell per static per run
+                return stt['alloc:'+nm]
         mlit=re.match(r'^(.*?)\s*\{\{(.*)\}\}$',s)
         if mlit:
             # constant struct literal: `Path {{ field: value, .. }}`
